@@ -31,7 +31,7 @@ import (
 //           its start value at any quiescent point
 // ---------------------------------------------------------------------------
 
-var c20ops = []string{"connect", "disconnect", "req-ok", "req-unsupported", "req-invalid", "req-multikey", "req-unfollowable-redirect", "move-group", "start-migration", "node-down", "node-up", "reset-backend", "remove-all-hosts", "add-hosts", "disconnect-with-request-in-flight"}
+var c20ops = []string{"connect", "disconnect", "req-ok", "req-unsupported", "req-invalid", "req-multikey", "req-unfollowable-redirect", "move-group", "start-migration", "node-down", "node-up", "reset-backend", "remove-all-hosts", "add-hosts", "disconnect-with-request-in-flight", "cut-off-pipeline"}
 
 type c20snap struct {
 	cxTotal, cxDestroy, cxActive uint64
@@ -126,6 +126,15 @@ func c20body(depth int) func() {
 					m0.BadReplies = map[string][]byte{"get": []byte(bad)}
 					do(cur, resp.Encode(resp.Cmd("GET", k0)))
 					m0.BadReplies = nil
+				}
+			case "cut-off-pipeline":
+				// two complete requests and the beginning of a third in one write, then the client is gone
+				if cur != nil {
+					raw := append(resp.Encode(resp.Cmd("SET", k0, "v")), resp.Encode(resp.Cmd("PING"))...)
+					raw = append(raw, []byte("*2\r\n$3\r\nGET\r\n$5\r\nab")...)
+					cur.Send(raw)
+					sched.WaitQuiescent()
+					cur.Close()
 				}
 			case "disconnect-with-request-in-flight":
 				// the client goes away while its request waits for the node's answer; the answer arrives afterwards
